@@ -1,6 +1,6 @@
 """Self-test: every deliberate break in mutants/<ID>/*.diff must be reported as a violation.
 
-./check --selftest <ID>|all [--tier quick|thorough] [--only substring] [--silence N]
+./check --selftest <ID>|all [--tier quick|thorough] [--only substring] [--silence N] [--jobs J]
 
 For each patch: copy the repository's sources to a scratch directory outside /repo and /verif,
 apply the patch there, run the check with VERIF_REPO=<scratch> (evidence writing disabled) and
@@ -54,6 +54,7 @@ def main(args):
   tier = 'quick'
   only = None
   silence = 0
+  jobs = 1
   props = []
   it = iter(args)
   for a in it:
@@ -63,17 +64,24 @@ def main(args):
       only = next(it)
     elif a == '--silence':
       silence = int(next(it))
+    elif a == '--jobs':
+      jobs = int(next(it))
     elif a == 'all':
       props = [f'C{i:02d}' for i in range(1, 21)]
     else:
       props.append(a.upper())
   bad = 0
+  import concurrent.futures as cf
   for prop in props:
     patches = sorted(glob.glob(os.path.join(HERE, 'mutants', prop, '*.diff')))
     if only:
       patches = [p for p in patches if only in os.path.basename(p)]
-    for patch in patches:
-      status, out, wall = run_mutant(prop, patch, tier)
+    if jobs > 1 and 'VP_WORKERS_ORIG' not in os.environ:
+      os.environ['VP_WORKERS_ORIG'] = os.environ.get('VP_WORKERS', '14')
+      os.environ['VP_WORKERS'] = str(max(2, int(os.environ['VP_WORKERS_ORIG']) // jobs))
+    with cf.ThreadPoolExecutor(max_workers=jobs) as ex:
+      results = list(ex.map(lambda p: run_mutant(prop, p, tier), patches))
+    for patch, (status, out, wall) in zip(patches, results):
       mon = ''
       for line in out.splitlines():
         if line.strip().startswith('violation monitor='):
